@@ -155,11 +155,26 @@ func (r *schemaLoader) resolveRef(ref *Ref, target interface{}, basePath string)
 			return err
 		}
 	}
-	if rv := reflect.ValueOf(res); res == nil || (rv.Kind() == reflect.Ptr && rv.IsNil()) {
+	if designatesNothing(res) {
 		// the pointer ends at a member the typed document does not hold (e.g. an absent additionalProperties)
 		return fmt.Errorf("%q designates nothing in the document: %w", ref.String(), ErrSpec)
 	}
 	return swag.DynamicJSONToStruct(res, target)
+}
+
+// designatesNothing tells whether a JSON pointer evaluated on a typed document ended at a member that document
+// does not hold: an untyped nil, or the nil pointer, map, slice or interface that stands for the absent member
+// (e.g. the properties, allOf or required of a schema that has none).
+func designatesNothing(res interface{}) bool {
+	if res == nil {
+		return true
+	}
+	switch rv := reflect.ValueOf(res); rv.Kind() {
+	case reflect.Ptr, reflect.Map, reflect.Slice, reflect.Interface:
+		return rv.IsNil()
+	default:
+		return false
+	}
 }
 
 func (r *schemaLoader) load(refURL *url.URL) (interface{}, url.URL, bool, error) {
